@@ -57,6 +57,22 @@ def special_programs():
     ]
 
 
+def multibyte_endings():
+    """Every expression form ending in a multi-byte character, at every position where the rewriter (or the printer) takes the
+    end of a span: swc's generator looks up `span.hi - 1` for closing tokens."""
+    ends = ["\u00e9", "x\u4e2d", "a.\u00e9", "f(\u00e9)", "\u00e9 + \u00fc", "`${\u00e9}`", "\u00e9?.\u00fc", "'\u00e9'", "(\u00e9)", "[\u00e9]", "\u00e9 ? \u00fc : \u00f6",
+            "b += \u00e9", "-\u00e9", "typeof \u00e9", "\u00e9.trim()", "a + \U0001d4b3", "new \u00e9", "\u00e9.\u00fc.trim().\u00f6", "\u00e9++", "\u00e9 = \u00fc"]
+    ctxs = ["const f = (a) => %s;", "function f(a){ return %s; }", "{ x = `${%s}`; }", "{ g(a, %s); }", "{ o[%s] += a; }", "{ v += %s; }", "{ y = (%s); }", "{ y = [a, %s]; }",
+            "{ y = { k: %s }; }", "function f(a = %s){ return a + 1; }", "class A { p = %s; m(){ return a + b; } }", "{ a.concat(%s); }", "{ (%s).trim(); }", "const f = (a) => a + %s;",
+            "{ y = a + %s; }", "async (a) => await (a + %s);", "{ x = a?.trim(%s); }", "{ if (%s) a + b; else c + %s }", "{ for (const k of %s) a + k }", "{ String.prototype.concat.call(a, %s) }",
+            "{ x = a.b?.c?.(%s).trim() }", "{ return_ = () => ({ k: a + %s }) }", "{ `${a}${%s}` }"]
+    out = []
+    for c in ctxs:
+        for e in ends:
+            out.append(c.replace("%s", e))
+    return out
+
+
 def smap_cases(rng, i):
     big = {"version": 3, "sources": ["o.ts"], "names": [], "mappings": ";".join("AAAA,CAAC" * 50 for _ in range(2000))}
     maps = {"ok.map": json.dumps({"version": 3, "sources": ["o.ts"], "names": [], "mappings": "AAAA"}), "big.map": json.dumps(big), "empty.map": "", "bin.map": "\x00\x01\x02\ufffd",
@@ -140,6 +156,8 @@ def run(O, P):
                       "calls": [{"code": code, "file": "node_modules/pkg/" + os.path.basename(p)}], "opts": {"ast": False}})
     for i, code in enumerate(special_programs()):
         cases.append({"id": "c13special-%d" % i, "config": vlib.default_config(chainSourceMap=True, comments=True), "calls": [{"code": code, "file": FILES[i % len(FILES)]}], "opts": {"ast": False}})
+    for i, code in enumerate(multibyte_endings()):
+        cases.append({"id": "c13mb-%d" % i, "config": vlib.default_config(chainSourceMap=(i % 2 == 0), comments=(i % 3 == 0)), "calls": [{"code": code, "file": FILES[i % len(FILES)]}], "opts": {"ast": False}})
     for i in range(n):
         rng = random.Random("%s/c13/%d" % (O.seed, i))
         base = jsgen.program("%s/c13" % O.seed, i) if i % 2 else catalogue.program("%s/c13" % O.seed, i)
